@@ -85,13 +85,25 @@ def attrs_contained(supplied, returned):
 
 # ---------------------------------------------------------------- wsvg product
 
-def check_wsvg(idxs, ai, si, fkind, tmp, acc):
+# further options of wsvg that shape the svg element (none of them touches a path): given alone and together with
+# svg_attributes ("svg_attributes will override any other conflicting settings", disvg docstring)
+EXTRAS = [None, {'viewbox': '0 0 200 100'}, {'viewbox': (1, 2, 30, 40)}, {'dimensions': ('300px', '200px')}, {'margin_size': 0.3, 'mindim': 100},
+          {'viewbox': '5 5 50 50', 'dimensions': (640, 480)}, {'baseunit': 'mm'}, {'svgwrite_debug': True, 'timestamp': False},
+          {'viewbox': '0 0 64 48', 'mindim': 50, 'margin_size': 0}]
+
+
+def _nums(s_):
+    import re
+    return [float(x) for x in re.split(r'[ ,]+', str(s_).strip()) if x]
+
+
+def check_wsvg(idxs, ai, si, fkind, tmp, acc, ei=0):
     P = pool()
     paths = [P[i] for i in idxs]
     attributes = None if ATTRS[ai] is None else [dict(ATTRS[ai], id='e%d' % k) if 'id' in ATTRS[ai] else dict(ATTRS[ai]) for k in range(len(paths))]
     svgat = SVGATTRS[si]
     sub = {'plain': 'out.svg', 'subdir': os.path.join('new dir', 'deeper', 'out.svg'), 'space': 'my file.svg'}[fkind]
-    fn = os.path.join(tmp, 'w%s_%d_%d_%s' % (''.join(map(str, idxs)), ai, si, fkind), sub)
+    fn = os.path.join(tmp, 'w%s_%d_%d_%s_%d' % (''.join(map(str, idxs)), ai, si, fkind, ei), sub)
     os.makedirs(os.path.dirname(os.path.dirname(fn)), exist_ok=True)
     case = {'what': 'wsvg', 'paths': list(idxs), 'attributes': ai, 'svg_attributes': si, 'filename': fkind}
     kw = {}
@@ -106,18 +118,44 @@ def check_wsvg(idxs, ai, si, fkind, tmp, acc):
         kw['colors'] = ['#abcdef'] * len(paths)
         kw['stroke_widths'] = [3] * len(paths)
     case_extra = {'style_lists': True} if styled else {}
+    if ei:
+        kw.update(EXTRAS[ei])
+        case['extras'] = ei
     with warnings.catch_warnings():
         warnings.simplefilter('ignore')
         r = outcome(lambda: wsvg(paths, filename=fn, **kw))
     sig = {'writer': 'wsvg', 'attributes': ai != 0, 'svg_attributes': si != 0}
     if styled:
         sig['style_lists_too'] = True
-    acc.case(case, cls='wsvg/attrs%d/svg%d/%s' % (ai, si, fkind), nontrivial=True)
+    if ei:
+        sig['extras'] = sorted(EXTRAS[ei])
+    acc.case(case, cls=('wsvg/attrs%d/svg%d/%s' % (ai, si, fkind)) if not ei else 'wsvg_extras/%d/svg%d' % (ei, si), nontrivial=True)
     acc.traces += 1
     if r[0] != 'ok' or not os.path.exists(fn):
         acc.violation('writer_raises', dict(sig, exc=r[1] if r[0] != 'ok' else 'no file'), case, observed=r)
         return
     read_back(fn, paths, attributes, svgat, case, sig, acc)
+    if ei:
+        # the svg-level values asked for through the dedicated parameters, where svg_attributes does not speak
+        with warnings.catch_warnings():
+            warnings.simplefilter('ignore')
+            rr = outcome(lambda: svg2paths2(fn)[2])
+        if rr[0] != 'ok':
+            return
+        got = rr[1]
+        ex = EXTRAS[ei]
+        # (only where no svg_attributes are given at all: what wins between a dedicated parameter and a dictionary
+        #  that does not mention it is not laid down anywhere)
+        if svgat is not None:
+            return
+        if 'viewbox' in ex and not (svgat and 'viewBox' in svgat):
+            want = _nums(ex['viewbox'] if isinstance(ex['viewbox'], str) else ' '.join(map(str, ex['viewbox'])))
+            if 'viewBox' not in got or _nums(got['viewBox']) != want:
+                acc.violation('svg_attribute_lost_or_changed', dict(sig, which='viewbox parameter'), dict(case, reader='svg2paths'), observed=got.get('viewBox'), expected=want)
+        if 'dimensions' in ex:
+            for k_, v_ in zip(('width', 'height'), ex['dimensions']):
+                if not (svgat and k_ in svgat) and str(got.get(k_)) != str(v_):
+                    acc.violation('svg_attribute_lost_or_changed', dict(sig, which='dimensions parameter'), dict(case, reader='svg2paths'), observed=got.get(k_), expected=str(v_))
 
 
 def read_back(fn, paths, attributes, svgat, case, sig, acc):
@@ -258,6 +296,46 @@ def inspect_doc(hist, tmp, acc):
         if len(got) != len(paths) or not all(any(same_path(g, p) for g in got) for p in paths):
             acc.violation('added_paths_not_visible_to_own_queries', dict(sig, reloaded=any(op[0] == 'save_reload' for op in hist)),
                           case, observed=[p.d() for p in got], expected=[p.d() for p in paths])
+    # the Document's group queries: the root and every group chain used so far, recursively and not, the group given
+    # as element or (below the root) as a list of names, with the optional arguments by keyword and by position
+    chains = [None] + sorted({tuple(m[2][:k]) for m in model if m[2] for k in range(1, len(m[2]) + 1)})
+    for ch in chains:
+        for recursive in (True, False):
+            for how in ('element_keyword', 'element_positional', 'names'):
+                if ch is None and how == 'names':
+                    continue
+                if (recursive, how) in ((True, 'element_positional'), (False, 'names')):
+                    continue        # (cost: the remaining four combinations name every option once in every spelling)
+                if recursive:
+                    want = [m[0] for m in model if ch is None or tuple((m[2] or [])[:len(ch)]) == ch]
+                else:
+                    want = [m[0] for m in model if tuple(m[2] or []) == (ch or ())]
+
+                def q():
+                    grp = doc.tree.getroot() if ch is None else (list(ch) if how == 'names' else doc.get_group(list(ch)))
+                    if how == 'element_positional':
+                        return doc.paths_from_group(grp, recursive)
+                    return doc.paths_from_group(grp, recursive=recursive)
+                with warnings.catch_warnings():
+                    warnings.simplefilter('ignore')
+                    rq = outcome(q)
+                acc.evaluations += 1
+                qsig = dict(sig, query='paths_from_group', group='root' if ch is None else 'depth%d' % len(ch), recursive=recursive)
+                if rq[0] != 'ok':
+                    acc.violation('reader_raises', dict(qsig, reader='own paths_from_group()', exc=rq[1]), case, observed=rq)
+                    break
+                gq = rq[1]
+                if len(gq) != len(want) or not all(any(same_path(g, p_) for g in gq) for p_ in want):
+                    acc.violation('added_paths_not_visible_to_own_queries', dict(qsig, reloaded=any(op[0] == 'save_reload' for op in hist)), case,
+                                  observed=[p_.d() for p_ in gq], expected=[p_.d() for p_ in want],
+                                  detail='paths_from_group(%r, recursive=%r) [%s]' % (ch, recursive, how))
+                    break
+            else:
+                continue
+            break
+        else:
+            continue
+        break
     # every added path sits in exactly the group chain it was added to (direct children all the way down)
     SVGNS = '{http://www.w3.org/2000/svg}'
     for (p_, at_, grp_) in model:
@@ -325,7 +403,10 @@ def shards(tier, seed):
     tp = tier_params(tier, seed)
     out = [{'what': 'wsvg', 'ai': a, 'si': s, 'fkind': f} for a in range(len(ATTRS)) for s in range(len(SVGATTRS))
            for f in ('plain', 'subdir', 'space')]
-    out.append({'what': 'documents'})
+    out += [{'what': 'wsvg', 'ai': a, 'si': s_, 'fkind': 'plain', 'ei': e} for a in (0, 1) for s_ in range(len(SVGATTRS)) for e in range(1, len(EXTRAS))]
+    # the history graph is enumerated (on the reference model, cheap) by every one of these shards; each inspects
+    # the real Document only for its own share of the states
+    out += [{'what': 'documents', 'part': i, 'of': 16} for i in range(16)]
     return out
 
 
@@ -343,14 +424,19 @@ def run_shard(desc, tier, seed):
                 for idxs in itertools.product(range(n), repeat=L):
                     if desc['fkind'] != 'plain' and L > 1:
                         continue
-                    check_wsvg(idxs, desc['ai'], desc['si'], desc['fkind'], tmp, acc)
+                    if desc.get('ei') and L > 1 and tier == 'quick':
+                        continue
+                    check_wsvg(idxs, desc['ai'], desc['si'], desc['fkind'], tmp, acc, ei=desc.get('ei', 0))
         else:
             # BFS over histories, de-duplicated on the reference-model state
             seen = set()
             frontier = [[]]
             seen.add(model_key([]))
-            inspect_doc([], tmp, acc)
-            acc.states = 1
+            part, of = desc.get('part', 0), desc.get('of', 1)
+            mine = lambda k: core.h64(k) % of == part
+            if mine(model_key([])):
+                inspect_doc([], tmp, acc)
+            acc.states = 1 if part == 0 else 0
             for depth in range(tp['depth']):
                 nxt = []
                 for hist in frontier:
@@ -358,15 +444,18 @@ def run_shard(desc, tier, seed):
                         if op[0] in ('save', 'save_reload') and hist and hist[-1][0] in ('save', 'save_reload'):
                             continue
                         h2 = hist + [op]
-                        acc.transitions += 1
+                        if part == 0:
+                            acc.transitions += 1
                         k = model_key(h2)
                         if k in seen:
                             continue
                         seen.add(k)
-                        inspect_doc(h2, tmp, acc)
+                        if mine(k):
+                            inspect_doc(h2, tmp, acc)
                         nxt.append(h2)
                 frontier = nxt
-                acc.states += len(nxt)
+                if part == 0:
+                    acc.states += len(nxt)
                 acc.max_depth = depth + 1
     finally:
         shutil.rmtree(tmp, ignore_errors=True)
@@ -380,7 +469,8 @@ def expected_classes(tier):
 
 def space(tier, seed):
     tp = tier_params(tier, seed)
-    return {'path_pool': [p.d() for p in pool()], 'attribute_dicts': ATTRS, 'svg_attributes': SVGATTRS,
+    return {'wsvg_extras': [None if e is None else {k: (list(v) if isinstance(v, tuple) else v) for k, v in e.items()} for e in EXTRAS],
+            'path_pool': [p.d() for p in pool()], 'attribute_dicts': ATTRS, 'svg_attributes': SVGATTRS,
             'filenames': ['plain', 'in a fresh sub-directory', 'containing a space'], 'wsvg_lists_up_to': tp['wsvg_len'],
             'document_operations': DOC_OPS, 'history_depth': tp['depth'],
             'readers': ['own Document.paths()', 'svg2paths', 'Document(file).paths()', 'SaxDocument(file).flatten_all_paths()']}
@@ -391,7 +481,7 @@ def replay(case):
     tmp = tempfile.mkdtemp(prefix='verif_c18_')
     try:
         if case['what'] == 'wsvg':
-            check_wsvg(tuple(case['paths']), case['attributes'], case['svg_attributes'], case['filename'], tmp, acc)
+            check_wsvg(tuple(case['paths']), case['attributes'], case['svg_attributes'], case['filename'], tmp, acc, ei=case.get('extras', 0))
         else:
             inspect_doc(case['history'], tmp, acc)
         if 'reader' in case:
